@@ -41,8 +41,10 @@ def judge(ctx, res, seed):
         return
     ctx.count("reduce_local_calls_checked", int(summ.split()[1].split("=")[1]))
     for l in lines:
-        if l.startswith("PAIR ") and l.endswith(" ok"):
-            ctx.nontrivial(" ".join(l.split()[1:3]))
+        if l.startswith("PAIR "):
+            ctx.evaluation()
+            if l.endswith(" ok"):
+                ctx.nontrivial(" ".join(l.split()[1:3]))
         if l.startswith("FORBIDDEN"):
             ctx.count("forbidden_pairs_no_crash")
 
@@ -54,7 +56,6 @@ def run(ctx):
 
     def one(seed):
         res = mpi.smpirun(exe, 1, [seed, 3])
-        ctx.evaluation()
         if res.timed_out:
             ctx.inconclusive("smpirun watchdog")
             return
@@ -69,7 +70,6 @@ def replay(ctx, w):
     exe = build.smpicc("mpi/ops.c", "hooks")
     try:
         res = mpi.smpirun(exe, 1, [w["seed"], 3])
-        ctx.evaluation()
         judge(ctx, res, w["seed"])
     finally:
         mpi.cleanup()
